@@ -54,6 +54,9 @@ type SynthResolver struct {
 	Root *ggql.Root
 	// Calls counts Resolve invocations (observability only).
 	Calls int
+	// ArgLog collects the canonical argument maps of the invocations of one
+	// request (reset by Observe).
+	ArgLog []string
 }
 
 func (sr *SynthResolver) fieldType(field *ggql.Field) ggql.Type {
@@ -137,6 +140,9 @@ func (sr *SynthResolver) Resolve(obj interface{}, field *ggql.Field, args map[st
 	if len(args) > 0 {
 		b, _ := json.Marshal(canonValue(args))
 		p += string(b)
+		if len(sr.ArgLog) < 64 {
+			sr.ArgLog = append(sr.ArgLog, field.Name+string(b))
+		}
 	}
 	return sr.synth(sr.fieldType(field), p, 0), nil
 }
@@ -387,6 +393,34 @@ func RequestsFor(root *ggql.Root, roots [3]string) (reqs []string) {
 				}
 			}
 		}
+		// fields with input-object arguments that are optional: one request each
+		// that passes the argument (its required fields only)
+		if o, _ := t.(*ggql.Object); o != nil {
+			extraIn := 0
+			for _, fd := range o.Fields() {
+				var args []string
+				hasOptIn := false
+				for _, a := range fd.Args() {
+					_, nn := a.Type.(*ggql.NonNull)
+					if _, isIn := ggql.BaseType(a.Type).(*ggql.Input); isIn && !nn {
+						hasOptIn = true
+						args = append(args, a.Name()+": "+literalFor(a.Type, 0))
+					} else if nn {
+						args = append(args, a.Name()+": "+literalFor(a.Type, 0))
+					}
+				}
+				if !hasOptIn || extraIn >= 6 {
+					continue
+				}
+				extraIn++
+				sub := ""
+				switch ggql.BaseType(fd.Type).(type) {
+				case *ggql.Object, *ggql.Interface, *ggql.Union:
+					sub = " { __typename }"
+				}
+				reqs = append(reqs, kw+" { "+fd.Name()+"("+strings.Join(args, ", ")+")"+sub+" }")
+			}
+		}
 		// every value of every enum-typed argument is used as an input once (a value
 		// that is printed and introspected but cannot be coerced in is a different schema)
 		var fds []*ggql.FieldDef
@@ -463,8 +497,18 @@ func Observe(root *ggql.Root) *Observation {
 		}()
 		o.Requests = RequestsFor(root, o.Roots)
 	}()
+	sr, _ := root.AnyResolver.(*SynthResolver)
 	for _, q := range o.Requests {
-		o.Responses = append(o.Responses, SafeResolve(root, q, "", nil))
+		if sr != nil {
+			sr.ArgLog = sr.ArgLog[:0]
+		}
+		resp := SafeResolve(root, q, "", nil)
+		if sr != nil && len(sr.ArgLog) > 0 {
+			// the arguments as the resolvers received them (defaults of input
+			// types filled in by the library), whatever the result type shows
+			resp += " args=" + strings.Join(sr.ArgLog, ";")
+		}
+		o.Responses = append(o.Responses, resp)
 	}
 	return o
 }
